@@ -376,8 +376,9 @@ func (c03) Run(t *testing.T, cs Case, trace bool) *Outcome {
 		ctx, cancel := context.WithCancel(context.Background())
 		defer cancel()
 		st := w.St
+		var tr *simTransport
 		if c.Remote {
-			st = remoteState(ctx, s, w.Core, nil)
+			st, tr = remoteState(w.Core, nil, out)
 		}
 		for _, p := range c.Pre {
 			r := NewRes("ns1", TypeA, p.ID, p.Val)
@@ -468,6 +469,7 @@ func (c03) Run(t *testing.T, cs Case, trace bool) *Outcome {
 			out.violate("C03/panic", "panic:"+firstLine(ps[0].Value), "task %s panicked: %s\n%s", ps[0].Task, ps[0].Value, ps[0].Stack)
 			return
 		}
+		tr.checkServerAlive("C03", out)
 		log := w.Log
 		// S1: no destroy while finalizers are pending
 		for _, id := range []string{"r0", "r1"} {
@@ -568,6 +570,9 @@ func checkHelper(h *helperRec, log []Commit, preLen int, out *Outcome) {
 					why = append(why, fmt.Sprintf("p=%d: no satisfying state", p))
 				case first.LogIdx > h.Ret:
 					why = append(why, fmt.Sprintf("p=%d: first satisfying state only after the return", p))
+				case first.Tombstone && !h.ResultTomb && h.Result != nil && h.Result.Version == "undefined" && h.Result.ID == id:
+					// over the wire a tombstone arrives as a resource with undefined version and empty spec
+					okAny = true
 				case first.Tombstone != h.ResultTomb || (!first.Tombstone && (h.Result == nil || *h.Result != first.Snap)):
 					why = append(why, fmt.Sprintf("p=%d: first satisfying state is %s(%s@%s fins=[%s] %s tokens=[%s])", p, first.Type, first.Snap.ID, first.Snap.Version, first.Snap.Fins, first.Snap.Phase, first.Snap.Tokens))
 				default:
